@@ -192,6 +192,21 @@ CLAIMED = {
              "script). Data frame links are outside (data frames do not work with the installed "
              "NumPy). Counterexamples are replayed on a real HDF5 file.",
         ref="3 C05"),
+    "C15": dict(
+        text="PARTIAL. For 1-3 stored values, coefficient lists of length 0-3, origin absent / 0 / "
+             "non-zero (all exact rationals k/16 with symbolic numerators), stored element types "
+             "int16 / float32 / float64 and six read paths (whole, single element, slice, view, "
+             "read_direct into an ndarray buffer, element of a view): every element read equals "
+             "c0 + c1 (x-o) + c2 (x-o)^2 exactly (so slicing and calibration commute), calibrated "
+             "reads have the double element type and uncalibrated reads the stored one, and the "
+             "stored raw values are the identical objects afterwards; for all 3-step sequences of "
+             "setting / changing / clearing coefficients and origin the getters return what was set, "
+             "reads follow, raw values never change.",
+        note="NOT decided: float rounding of the polynomial and NumPy's integer->double conversion "
+             "(NumPy arrays on this path are a pure-Python stand-in with exact rational arithmetic, "
+             "its Horner polyval validated against NumPy); rank > 1; reads through tags (same "
+             "DataView path as C08). Counterexamples are replayed with real floats on a real file.",
+        ref="3 C15"),
 }
 
 NOT_APPLICABLE = {
